@@ -207,10 +207,10 @@ func ExpectedWidth(c vaxis.Cell, prof refterm.Profile) int {
 // Compare checks every visible cell span of the application's screen against the
 // terminal grid, and the hardware cursor. Visibility is as the renderer defines
 // it: scanning a row left to right, a cell of width w hides the next w-1 cells.
-func (m *Model) Compare(t *refterm.Terminal, prof refterm.Profile) *Mismatch {
+func (m *Model) Compare(t View, prof refterm.Profile) *Mismatch {
 	g := t.Grid()
 	if len(g) != m.Rows || (m.Rows > 0 && len(g[0]) != m.Cols) {
-		return &Mismatch{Clause: "size", Detail: fmt.Sprintf("terminal %dx%d, screen %dx%d", t.Cols, t.Rows, m.Cols, m.Rows)}
+		return &Mismatch{Clause: "size", Detail: fmt.Sprintf("terminal has %d rows, screen %dx%d", len(g), m.Cols, m.Rows)}
 	}
 	for r := 0; r < m.Rows; r++ {
 		for c := 0; c < m.Cols; {
@@ -268,17 +268,26 @@ func (m *Model) Compare(t *refterm.Terminal, prof refterm.Profile) *Mismatch {
 	return m.CompareCursor(t)
 }
 
-func (m *Model) CompareCursor(t *refterm.Terminal) *Mismatch {
+// View is anything that shows a grid of cells and a hardware cursor: the
+// reference terminal, or the embedded emulator seen through an adapter.
+type View interface {
+	Grid() [][]refterm.Cell
+	Cursor() (row, col int, pending bool)
+	CursorVisible() bool
+	CursorStyle() int
+}
+
+func (m *Model) CompareCursor(t View) *Mismatch {
 	row, col, _ := t.Cursor()
-	if m.Cursor.Visible != t.CursorVis {
-		return &Mismatch{Clause: "cursor-visible", Detail: fmt.Sprintf("want visible=%v got %v", m.Cursor.Visible, t.CursorVis)}
+	if m.Cursor.Visible != t.CursorVisible() {
+		return &Mismatch{Clause: "cursor-visible", Detail: fmt.Sprintf("want visible=%v got %v", m.Cursor.Visible, t.CursorVisible())}
 	}
 	if m.Cursor.Visible {
 		if row != m.Cursor.Row || col != m.Cursor.Col {
 			return &Mismatch{Clause: "cursor-pos", Detail: fmt.Sprintf("want %d,%d got %d,%d", m.Cursor.Row, m.Cursor.Col, row, col)}
 		}
-		if t.CursorShape != m.Cursor.Shape {
-			return &Mismatch{Clause: "cursor-shape", Detail: fmt.Sprintf("want %d got %d", m.Cursor.Shape, t.CursorShape)}
+		if t.CursorStyle() != m.Cursor.Shape {
+			return &Mismatch{Clause: "cursor-shape", Detail: fmt.Sprintf("want %d got %d", m.Cursor.Shape, t.CursorStyle())}
 		}
 	}
 	return nil
